@@ -178,10 +178,90 @@ class SimpleTypes:
     def _is_value(self, e, env):
         return isinstance(e, ast.Name) and env.get(e.id) == "VALUE"
 
+    def _specialise(self, body, f, cls):
+        """The statements of a classmethod partially evaluated for the class it runs on: locals bound to class constants
+        (`lo, hi = cls._bounds`) are folded into their uses, `if <constant>` keeps the arm taken, `*cls._range` arguments are
+        spread.  Table-driven validators then read like the hand-written ones."""
+        import copy
+
+        from .pysrc import Unknown
+
+        env = {}
+
+        def fold(e):
+            v = self.prog.const(e, f.module, dict(env), cls)
+            return v
+
+        def lit(v):
+            if isinstance(v, tuple):
+                return ast.Tuple(elts=[lit(x) for x in v], ctx=ast.Load())
+            return ast.Constant(value=v)
+
+        def plain(v):
+            return v is None or isinstance(v, (int, float, str, bool)) or (isinstance(v, tuple) and all(plain(x) for x in v))
+
+        class Sub(ast.NodeTransformer):
+            def visit_Name(self_, n):
+                if isinstance(n.ctx, ast.Load) and n.id in env and plain(env[n.id]):
+                    return ast.copy_location(lit(env[n.id]), n)
+                return n
+
+            def visit_Attribute(self_, n):
+                if dotted(n) and dotted(n).split(".")[0] in ("cls", "self") and dotted(n).count(".") == 1:
+                    v = fold(n)
+                    if not isinstance(v, Unknown) and plain(v):
+                        return ast.copy_location(lit(v), n)
+                return self_.generic_visit(n)
+
+            def visit_Call(self_, n):
+                self_.generic_visit(n)
+                args = []
+                for a in n.args:
+                    if isinstance(a, ast.Starred) and isinstance(a.value, ast.Tuple):
+                        args.extend(a.value.elts)
+                    else:
+                        args.append(a)
+                n.args = args
+                return n
+
+        def block(stmts):
+            out = []
+            for st in stmts:
+                st = copy.deepcopy(st)
+                if isinstance(st, ast.Assign) and len(st.targets) == 1 and not any(isinstance(x, ast.Call) for x in ast.walk(st.value)):
+                    v = fold(st.value)
+                    t = st.targets[0]
+                    if not isinstance(v, Unknown) and plain(v):
+                        if isinstance(t, ast.Name):
+                            env[t.id] = v
+                            continue
+                        if isinstance(t, ast.Tuple) and isinstance(v, tuple) and len(v) == len(t.elts) and all(isinstance(e_, ast.Name) for e_ in t.elts):
+                            for e_, x in zip(t.elts, v):
+                                env[e_.id] = x
+                            continue
+                if isinstance(st, ast.If):
+                    # only tests over class constants and folded locals are decided here (no calls, no run-time names)
+                    closed = not any(isinstance(x, ast.Call) for x in ast.walk(st.test)) and all(
+                        x.id in env or x.id in ("cls", "self", "True", "False", "None") for x in ast.walk(st.test) if isinstance(x, ast.Name))
+                    tv = fold(st.test) if closed else Unknown("open test")
+                    if not isinstance(tv, Unknown) and plain(tv):
+                        out.extend(block(st.body if tv else st.orelse))
+                        continue
+                    st.test = Sub().visit(st.test)
+                    st.body, st.orelse = block(st.body) or [ast.Pass()], block(st.orelse)
+                    out.append(st)
+                    continue
+                out.append(Sub().visit(st))
+                if isinstance(st, ast.Return):
+                    break
+            return out
+
+        return block(body)
+
     def _run_validate(self, f, cls, acc, env, depth):
         if depth > 10:
             raise AnalysisError("validate recursion too deep in %s" % cls.name)
-        body = self._canon_body(f)
+        body = self._specialise(self._canon_body(f), f, cls)
         if body and isinstance(body[0], ast.Expr) and isinstance(body[0].value, ast.Constant):
             body = body[1:]
         self._validate_block(body, f, cls, acc, env, depth)
